@@ -2,7 +2,7 @@
    OCaml driver is pure I/O glue: the extracted [run_line : string -> string] and the kernel's
    [Eval vm_compute in run_line "..."] evaluate the very same function on the very same text. *)
 From Coq Require Import String Ascii DecimalString Decimal.
-From HS Require Import Base PyVal FS Ops Spec.
+From HS Require Import Base PyVal FS Ops Spec Sched Lin.
 Open Scope string_scope.
 
 Definition show_nat (n : nat) : string := NilEmpty.string_of_uint (Nat.to_uint n).
@@ -279,8 +279,70 @@ Definition cmd_semcheck (h : list call) : string :=
   | Some k => "DIFFER " ++ show_nat k
   end.
 
+(* sched | setup | c1 || c2 [|| c3] : every stuck configuration reachable by some schedule, with
+   one witness schedule each:  <out1> , <out2> {files}[locks] lin=<0|1> retr=<0|1> @<schedule> *)
+Definition show_opt_outcome (r : option (outcome value)) : string :=
+  match r with Some x => show_outcome x | None => "BLOCKED" end.
+
+Definition show_final (w0 : world) (calls : list call) (pc : pcfg) : string :=
+  let c := fst pc in
+  join " , " (map show_opt_outcome (results (map api calls) c)) ++ " " ++ show_world (snd c)
+  ++ " lin=" ++ (if lin_ok w0 calls c then "1" else "0")
+  ++ " retr=" ++ (if stored_retrievable calls c then "1" else "0")
+  ++ " @" ++ join "," (map show_nat (rev (snd pc))).
+
+Definition cmd_sched (setup : list call) (calls : list call) : string :=
+  match run_history empty_world setup with
+  | Some (w0, _) =>
+      let ps := map api calls in
+      let finals := explore_paths ps sched_fuel [(init_cfg ps w0, [])] [] in
+      join " ; " (map (show_final w0 calls) finals)
+  | None => "STUCK"
+  end.
+
+(* schedok | setup | c1 || c2 : the closed boolean the menu theorems evaluate *)
+Definition cmd_schedok (setup : list call) (calls : list call) : string :=
+  if scenario_ok {| sc_setup := setup; sc_calls := calls |} then "OK" else "FAIL".
+
+(* crash n | setup | call : files left when the process dies before the n-th operation of the call,
+   and the number of operations of the complete call *)
+Definition cmd_crash (n : nat) (setup : list call) (c : call) : string :=
+  match run_history empty_world setup with
+  | Some (w0, _) =>
+      show_world (reopen (run_crash n w0 (api c))) ++ " len=" ++ show_nat (run_length 1000 w0 (api c))
+  | None => "STUCK"
+  end.
+
+(* fault k p|o | setup | call : outcome and world with the k-th fault site failing once / persistently *)
+Definition cmd_fault (k : nat) (pers : bool) (setup : list call) (c : call) : string :=
+  match run_history empty_world setup with
+  | Some (w0, _) =>
+      match run_fault (FWait k pers) w0 (api c) with
+      | Some (w, r) => show_outcome r ++ " " ++ show_world w ++ " sites=" ++ show_nat (count_sites w0 (api c))
+      | None => "STUCK"
+      end
+  | None => "STUCK"
+  end.
+
 Definition run_line (line : string) : string :=
   match split_at "|" (words line) [] with
+  | [[cmd]; sw; cw] =>
+      match read_history sw, read_calls (split_at "||" cw []) with
+      | Some setup, Some calls =>
+          if String.eqb cmd "sched" then cmd_sched setup calls
+          else if String.eqb cmd "schedok" then cmd_schedok setup calls
+          else "BADCMD"
+      | _, _ => "PARSE"
+      end
+  | [[cmd; arg]; sw; cw] =>
+      match read_nat arg, read_history sw, read_call cw with
+      | Some n, Some setup, Some c =>
+          if String.eqb cmd "crash" then cmd_crash n setup c
+          else if String.eqb cmd "faulto" then cmd_fault n false setup c
+          else if String.eqb cmd "faultp" then cmd_fault n true setup c
+          else "BADCMD"
+      | _, _, _ => "PARSE"
+      end
   | [[cmd]; hw] =>
       match read_history hw with
       | Some h =>
